@@ -328,10 +328,87 @@ async fn payout_histories(ctx: &Ctx, rng: &mut Rng, rep: &mut Report) {
     }
 }
 
+/// a golden ticket only counts when it solves the PARENT block: on a chain whose difficulty has
+/// been raised by consecutive ticket blocks (at difficulty 0 every hash "solves" every target) a
+/// block carrying a ticket with valid work over a foreign or a stale target must be refused,
+/// the same block with a ticket over the parent hash accepted
+async fn ticket_probes(rng: &mut Rng, rep: &mut Report, rounds: u64) {
+    for round in 0..rounds {
+        let params = Params::with_gp(60);
+        let mut b = Builder::new(&params, 5, &default_issuance(5)).await;
+        let mut tip = b.genesis;
+        let mut ok = true;
+        for i in 0..(7 + round % 3) {
+            let mut ex = vec![];
+            let txs = b.payment(rng, &tip, 1 + (i as usize % 4), 0, 700, 5_000, &mut ex).into_iter().collect();
+            let spec = BlockSpec { gap: 2 * params.heartbeat, txs, with_gt: true, gt_miner: 1 + (i as usize % 4) };
+            match b.extend(rng, &tip, &spec).await {
+                Ok(h) => tip = h,
+                Err(_) => {
+                    ok = false;
+                    break;
+                }
+            }
+        }
+        let parent = b.store.get(&tip).block.clone();
+        if !ok || parent.difficulty < 4 {
+            rep.count("ticket_probe_chains_skipped");
+            continue;
+        }
+        rep.max("ticket_probe_difficulty", parent.difficulty);
+        let grandparent = parent.previous_block_hash;
+        let solver = b.actors[3].clone();
+        for (variant, target, must_accept) in [("parent-hash", tip, true), ("foreign-target", rng.hash32(), false), ("stale-target-grandparent", grandparent, false)] {
+            let ticket = mine_gt(rng, target, parent.difficulty, &solver.pk);
+            // (with probability 2^-difficulty the nonce found for another target also solves the parent)
+            let wire = ticket.serialize_for_net();
+            let (nonce, solver_key): ([u8; 32], PK) = (wire[32..64].try_into().unwrap(), wire[64..97].try_into().unwrap());
+            if !must_accept && GoldenTicket::create(tip, nonce, solver_key).validate(parent.difficulty) {
+                rep.count("ticket_probe_nonce_solves_parent_by_chance");
+                continue;
+            }
+            let mut ex = vec![];
+            let txs: Vec<Transaction> = b.payment(rng, &tip, 2, 4, 300, 4_000, &mut ex).into_iter().collect();
+            let producer = b.producer_at(&tip).await;
+            let built = crate::panics::catch_async(producer.create_block(tip, parent.timestamp + 2 * params.heartbeat, txs, Some(gt_tx(&ticket, &solver)))).await;
+            b.keep_producer(tip, producer);
+            let block = match built {
+                Ok(Ok(bl)) => bl,
+                _ => {
+                    rep.count("ticket_probe_block_not_built");
+                    continue;
+                }
+            };
+            let bytes = block_bytes(&block);
+            let key = b.actors[4].clone();
+            let mut sut = b.fresh_replica(&tip, &key).await;
+            let before = sut.tip().await;
+            let r = crate::panics::catch_async(sut.add_bytes(&bytes)).await;
+            rep.eval();
+            rep.count("ticket_probes");
+            rep.count(&format!("ticket_probes.{}", variant));
+            rep.nontrivial(&format!("ticket|{}|{}|{}", variant, parent.difficulty, round));
+            let moved = sut.tip().await != before;
+            let witness = json!({"kind":"ticket-target","variant":variant,"difficulty":parent.difficulty,"block_hex":hex::encode(&bytes),"parent_hex":hex::encode(block_bytes(&parent))});
+            match (r, must_accept, moved) {
+                (Err(p), _, _) => rep.violation(&format!("C08|clause=ticket-target|variant={}|panic|{}", variant, p.signature()), &format!("add_block panicked: {}", p.message), witness),
+                (Ok(_), true, false) => rep.count("ticket_probe_control_refused"),
+                (Ok(_), false, true) => rep.violation(
+                    &format!("C08|clause=ticket-over-wrong-target-accepted|variant={}", variant),
+                    &format!("parent difficulty {}: a block whose golden ticket carries valid work over a {} (not the parent's hash) was accepted; the miner share goes to a key that did not solve the parent", parent.difficulty, variant),
+                    witness,
+                ),
+                _ => rep.count("ticket_probe_as_expected"),
+            }
+        }
+    }
+}
+
 pub async fn run(ctx: &Ctx, rep: &mut Report) {
     let mut rng = ctx.rng();
     curve_checks(&mut rng, rep, ctx.scale(40_000, 2_000_000) / ctx.shards.max(1));
     threshold_cases(&mut rng, rep, ctx.scale(240, 3000) / ctx.shards.max(1) + 1).await;
     payout_histories(ctx, &mut rng, rep).await;
+    ticket_probes(&mut rng, rep, ctx.scale(16, 200) / ctx.shards.max(1) + 1).await;
     rep.sample(json!({"threshold":"parent burnfee B, block at +gap ms (< 2 heartbeats): requirement N = round(B/gap); one fee-paying transaction routed sender -> [routers] -> creator with the smallest fee whose halved work reaches N (must be accepted) and that fee - 1 (must be refused)"}));
 }
